@@ -1,7 +1,11 @@
 #!/usr/bin/env python3
 '''
-Sensitivity test: apply a seeded change to /repo, run the owning property's
-check, always undo the change.  usage: mutest.py <PROP> <patch> [vcheck args...]
+Sensitivity test: apply a seeded change, run the owning property's check, always
+undo the change.  usage: mutest.py [--in-repo] <PROP> <patch> [vcheck args...]
+By default the change is applied to a scratch git worktree of /repo's HEAD (created
+under $TMPDIR and removed afterwards) and the check is pointed at it with VERIF_REPO,
+so /repo itself is never touched and several tests can run side by side; with
+--in-repo the change is applied to /repo (git apply) and undone (git checkout -- .).
 Prints DETECTED (exit 1 with a VIOLATION line) / MISSED (exit 0) / ERROR.
 '''
 import os
@@ -14,23 +18,46 @@ REPO = '/repo'
 
 
 def main():
-    prop, patch = sys.argv[1], os.path.abspath(sys.argv[2])
-    extra = sys.argv[3:]
-    st = subprocess.run(['git', '-C', REPO, 'status', '--porcelain', '--untracked-files=no'], stdout=subprocess.PIPE,
-                        universal_newlines=True).stdout.strip()
-    if st:
-        print('ERROR: /repo has uncommitted changes:\n' + st)
-        return 2
-    r = subprocess.run(['git', '-C', REPO, 'apply', patch])
-    if r.returncode:
-        print('ERROR: patch does not apply')
-        return 2
+    argv = sys.argv[1:]
+    in_repo = False
+    if argv and argv[0] == '--in-repo':
+        in_repo = True
+        argv = argv[1:]
+    prop, patch = argv[0], os.path.abspath(argv[1])
+    extra = argv[2:]
+    env = dict(os.environ)
+    if in_repo:
+        target = REPO
+        st = subprocess.run(['git', '-C', REPO, 'status', '--porcelain', '--untracked-files=no'], stdout=subprocess.PIPE,
+                            universal_newlines=True).stdout.strip()
+        if st:
+            print('ERROR: /repo has uncommitted changes:\n' + st)
+            return 2
+    else:
+        import tempfile
+        target = tempfile.mkdtemp(prefix='verif-mutwt-')
+        os.rmdir(target)
+        r = subprocess.run(['git', '-C', REPO, 'worktree', 'add', '-q', '--detach', target, 'HEAD'],
+                           stdout=subprocess.PIPE, stderr=subprocess.STDOUT, universal_newlines=True)
+        if r.returncode:
+            print('ERROR: cannot create scratch worktree: ' + r.stdout)
+            return 2
+        env['VERIF_REPO'] = target
     t0 = time.time()
     try:
+        r = subprocess.run(['git', '-C', target, 'apply', patch])
+        if r.returncode:
+            print('ERROR: patch does not apply')
+            return 2
         p = subprocess.run([os.path.join(VERIF, 'vcheck'), prop, '--no-evidence', '--no-determinism'] + extra,
-                           stdout=subprocess.PIPE, stderr=subprocess.STDOUT, universal_newlines=True, cwd=VERIF)
+                           stdout=subprocess.PIPE, stderr=subprocess.STDOUT, universal_newlines=True, cwd=VERIF, env=env)
     finally:
-        subprocess.run(['git', '-C', REPO, 'checkout', '--', '.'])
+        if in_repo:
+            subprocess.run(['git', '-C', REPO, 'checkout', '--', '.'])
+        else:
+            subprocess.run(['git', '-C', REPO, 'worktree', 'remove', '--force', target],
+                           stdout=subprocess.PIPE, stderr=subprocess.STDOUT)
+            subprocess.run(['git', '-C', REPO, 'worktree', 'prune'])
     out = p.stdout
     viol = [l for l in out.splitlines() if l.startswith('VIOLATION')]
     cand = [l for l in out.splitlines() if l.startswith('candidate violation') or l.startswith('  detail')]
